@@ -8,6 +8,7 @@ package storage
 import (
 	"os"
 	"path"
+	"sync"
 	"time"
 
 	log "github.com/sirupsen/logrus"
@@ -29,6 +30,9 @@ type Store struct {
 
 	badgerDir string
 	bundleDir string
+
+	// pushMutex serializes Push, which reads a BundleItem first and inserts or updates it afterwards.
+	pushMutex sync.Mutex
 }
 
 // NewStore creates a new Store or opens an existing Store from the given path.
@@ -71,6 +75,9 @@ func (s *Store) Close() error {
 
 // Push a new/received Bundle to the Store.
 func (s *Store) Push(b bpv7.Bundle) error {
+	s.pushMutex.Lock()
+	defer s.pushMutex.Unlock()
+
 	bi := newBundleItem(b, s.bundleDir)
 
 	if biStore, err := s.QueryId(b.ID()); err != nil {
